@@ -157,6 +157,9 @@ def check(ck: Checker) -> None:
     _roots(ck, fn, g)
     _classify(ck)
     _renames(ck)
+    from . import round7 as _r7
+
+    _r7.ensure_loaded_by_kind(ck, "C08.once")
 
 
 def _roots(ck: Checker, fn: Func, g) -> None:
